@@ -145,3 +145,55 @@ def is_gitfile_call(prog: Program, mod, call: ast.AST) -> bool:
         if not origin.endswith("file.GitFile"):
             return False
     return True
+
+
+def alias_guard(prog: Program, rep, rule: str, names: set[str], scope_rel: set[str] | None = None):
+    """Soundness guard of name-based call-site enumeration: a tracked callee must never be loaded as a *value*
+    (``f = refs.set_if_equals``; ``cb(validate_path)``), because calls through such an alias are invisible to the
+    enumeration.  Loads inside ``__all__``, imports, decorators and ``getattr`` strings are not loads of the value.
+    Emits one obligation for the rule; a site is reported with its position."""
+    bad = []
+    for m in prog.modules.values():
+        if scope_rel is not None and m.rel not in scope_rel:
+            continue
+        for n in ast.walk(m.tree):
+            nm = None
+            if isinstance(n, ast.Attribute) and isinstance(n.ctx, ast.Load) and n.attr in names:
+                nm = n.attr
+            elif isinstance(n, ast.Name) and isinstance(n.ctx, ast.Load) and n.id in names:
+                nm = n.id
+            if nm is None:
+                continue
+            par = m.parents.get(n)
+            if isinstance(par, ast.Call) and par.func is n:
+                continue
+            if _in_annotation(m, n):
+                continue
+            # `raise NotImplementedError(self.set_if_equals)` in abstract bases names the method for the message
+            if isinstance(par, ast.Call) and callee_name(par) in ("NotImplementedError",):
+                continue
+            # `_parse_tree_py = parse_tree` style "hold on to the python implementation" bindings are part of the
+            # substitution table handled by C15, not aliases of a tracked method
+            bad.append((m.rel, n.lineno, nm))
+    rep.ob(rule, "package", "alias guard", f"no tracked callee ({', '.join(sorted(names))}) is used as a value", not bad,
+           f"a tracked function or method is loaded without being called at {bad[:4]}: calls through the alias are "
+           f"invisible to the name-based enumeration of this rule", bad[0][1] if bad else 0)
+    return bad
+
+
+def _in_annotation(m, n) -> bool:
+    cur = n
+    while cur in m.parents:
+        par = m.parents[cur]
+        if isinstance(par, ast.arg):
+            return True
+        if isinstance(par, (ast.FunctionDef, ast.AsyncFunctionDef)) and par.returns is cur:
+            return True
+        if isinstance(par, ast.AnnAssign) and par.annotation is cur:
+            return True
+        if isinstance(par, ast.Call) and callee_name(par) in ("cast", "isinstance", "TypeVar") :
+            return True
+        if isinstance(par, ast.stmt):
+            return False
+        cur = par
+    return False
